@@ -9,7 +9,9 @@
    The model describes the code as repaired by the fix: commits (DESIGN.md 7):
    sign extension of narrow signed fields, big-endian narrow fields, the
    developer-field block of a zero-field definition, unknown-field counting for
-   known messages only, the end-of-chain test of DecodeChained. *)
+   known messages only, the end-of-chain test of DecodeChained, the two time-rule
+   repairs (a local timestamp never becomes the reference; hasTimestamp instead of
+   timestamp == 0). *)
 From Coq Require Import NArith ZArith List Bool String.
 From FitV Require Import Model.Values Model.Bytes Model.Base Model.Profile Model.Reflect Model.Crc
   Model.IO Model.Header Model.Components Model.Route Gen.Consts.
@@ -34,10 +36,6 @@ Record defmsg := mk_defmsg {
 Record dopts := mk_dopts { o_logger : bool; o_unkf : bool; o_unkm : bool }.
 Definition no_opts : dopts := mk_dopts false false false.
 
-(* quirk tags: executions that enter a path recorded as a known finding *)
-Definition Q_LOCAL_SETS_REF : N := 1.   (* local timestamp without reference becomes the reference *)
-Definition Q_TS_ZERO : N := 2.          (* a timestamp 0 (explicit, or reached by a compressed step wrapping 2^32) counts as "no reference" *)
-
 Record dstate := mk_dstate {
   ds_defs : list (option defmsg);      (* d.defmsgs, 16 slots *)
   ds_ts : N;                           (* d.timestamp *)
@@ -46,7 +44,9 @@ Record dstate := mk_dstate {
   ds_unkm : list (N * N);              (* d.unknownMessages *)
   ds_file : file;
   ds_g : gstate;
-  ds_quirks : list N
+  ds_quirks : list N;                  (* formerly the tags of executions entering a recorded defect; both C12 defects are
+                                          repaired (fixed: ac9b0b0, 2f21531), nothing raises a tag: always [] *)
+  ds_hasts : bool                      (* d.hasTimestamp: a timestamp field (253) has set the reference *)
 }.
 
 Definition P := prog dstate err.
@@ -268,13 +268,13 @@ Definition parse_time_stamp (s : dstate) (u32 : N) (kind : N) (num : N) : option
   else if kind =? kind_timeutc then
     let s' := if num =? c_fieldNumTimeStamp then
                 mk_dstate (ds_defs s) u32 (N.land u32 c_compressedTimeMask) (ds_unkf s) (ds_unkm s) (ds_file s) (ds_g s)
-                          (if u32 =? 0 then Q_TS_ZERO :: ds_quirks s else ds_quirks s)
+                          (ds_quirks s) true
               else s in
     (Some (decode_date_time u32), s')
   else
-    if (ds_ts s =? 0) || (ds_ts s <? c_systemTimeMarker) then
-      (Some (VTime (Z.of_N u32) 0 (Some 0%Z)),
-       mk_dstate (ds_defs s) u32 (ds_lastoff s) (ds_unkf s) (ds_unkm s) (ds_file s) (ds_g s) (Q_LOCAL_SETS_REF :: ds_quirks s))
+    (* local_date_time: no state change; zero offset without a usable (absolute) reference *)
+    if negb (ds_hasts s) || (ds_ts s <? c_systemTimeMarker) then
+      (Some (VTime (Z.of_N u32) 0 (Some 0%Z)), s)
     else
       (Some (VTime (Z.of_N (ds_ts s)) 0 (Some (Z.of_N u32 - Z.of_N (ds_ts s))%Z)), s).
 
@@ -292,17 +292,15 @@ Definition bump1 (k : N) (l : list (N * N)) : list (N * N) :=
      end) l.
 
 Definition with_unkf (s : dstate) (u : list (N * N * N)) : dstate :=
-  mk_dstate (ds_defs s) (ds_ts s) (ds_lastoff s) u (ds_unkm s) (ds_file s) (ds_g s) (ds_quirks s).
+  mk_dstate (ds_defs s) (ds_ts s) (ds_lastoff s) u (ds_unkm s) (ds_file s) (ds_g s) (ds_quirks s) (ds_hasts s).
 Definition with_unkm (s : dstate) (u : list (N * N)) : dstate :=
-  mk_dstate (ds_defs s) (ds_ts s) (ds_lastoff s) (ds_unkf s) u (ds_file s) (ds_g s) (ds_quirks s).
+  mk_dstate (ds_defs s) (ds_ts s) (ds_lastoff s) (ds_unkf s) u (ds_file s) (ds_g s) (ds_quirks s) (ds_hasts s).
 Definition with_defs (s : dstate) (d : list (option defmsg)) : dstate :=
-  mk_dstate d (ds_ts s) (ds_lastoff s) (ds_unkf s) (ds_unkm s) (ds_file s) (ds_g s) (ds_quirks s).
+  mk_dstate d (ds_ts s) (ds_lastoff s) (ds_unkf s) (ds_unkm s) (ds_file s) (ds_g s) (ds_quirks s) (ds_hasts s).
 Definition with_file (s : dstate) (f : file) (g : gstate) : dstate :=
-  mk_dstate (ds_defs s) (ds_ts s) (ds_lastoff s) (ds_unkf s) (ds_unkm s) f g (ds_quirks s).
+  mk_dstate (ds_defs s) (ds_ts s) (ds_lastoff s) (ds_unkf s) (ds_unkm s) f g (ds_quirks s) (ds_hasts s).
 Definition with_time (s : dstate) (ts lo : N) : dstate :=
-  mk_dstate (ds_defs s) ts lo (ds_unkf s) (ds_unkm s) (ds_file s) (ds_g s) (ds_quirks s).
-Definition with_quirk (s : dstate) (q : N) : dstate :=
-  mk_dstate (ds_defs s) (ds_ts s) (ds_lastoff s) (ds_unkf s) (ds_unkm s) (ds_file s) (ds_g s) (q :: ds_quirks s).
+  mk_dstate (ds_defs s) ts lo (ds_unkf s) (ds_unkm s) (ds_file s) (ds_g s) (ds_quirks s) (ds_hasts s).
 
 (* store a value in struct field sindex of the message under construction *)
 Definition msg_set (m : msg) (sindex : nat) (v : goval) : msg := mk_msg (m_num m) (set_nth sindex v (m_fields m)).
@@ -403,13 +401,12 @@ Definition parse_data_message (o : dopts) (b : N) (compressed : bool) : P (optio
        (if o_unkm o then put_st (with_unkm s (bump1 gmn (ds_unkm s))) else Ret tt) ;;; Ret None) >>= (fun msgv =>
     if negb compressed then parse_data_fields o dm known msgv else
     s <- get_st ;;
-    if ds_ts s =? 0 then parse_data_fields o dm known msgv else
+    if negb (ds_hasts s) then parse_data_fields o dm known msgv else
     let off := N.land b c_compressedTimeMask in
     (* d.timestamp += uint32((timeOffset - d.lastTimeOffset) & 0x1F), in int32/uint32 *)
     let delta := (off + 32 - ds_lastoff s) mod 32 in
     let ts := (ds_ts s + delta) mod 2 ^ 32 in
-    (* a step that wraps the 32-bit reference to exactly 0 enters the recorded defect "0 = no reference" *)
-    put_st (if ts =? 0 then with_quirk (with_time s ts off) Q_TS_ZERO else with_time s ts off) ;;;
+    put_st (with_time s ts off) ;;;
     match get_field gmn c_fieldNumTimeStamp with
     | Some p =>
         match msgv with
@@ -570,7 +567,7 @@ Definition check_crc (fuel : nat) (rd : reader) (crc : N) (f : file) : outcome (
   end.
 
 Definition init_dstate (f : file) (g : gstate) : dstate :=
-  mk_dstate (repeat None 16) 0 0 [] [] f g [].
+  mk_dstate (repeat None 16) 0 0 [] [] f g [] false.
 
 (* func (d) decode(r io.Reader, headerOnly, fileIDOnly, crcOnly bool) error *)
 Definition decode (o : dopts) (md : mode) (g : gstate) (rd : reader) (fuel : nat) : tout dres :=
